@@ -65,8 +65,22 @@ let () =
        Hashtbl.replace edges k (1 + try Hashtbl.find edges k with Not_found -> 0));
     ev in
   let push t o = w := CvModel.begin_op (CvReplay.push_op !w (nat t) o) (nat t) in
+  (* waiter structs are recycled through nsync's free list when a thread exits, and their remove_count is never reset: the model's
+     record of thread t starts at 0, the implementation's at whatever the struct held when t got it (rc_base) *)
+  let rc_real : (string, int) Hashtbl.t = Hashtbl.create 16 in          (* address -> last value seen *)
+  let rc_addr : (string, string) Hashtbl.t = Hashtbl.create 16 in       (* region -> address of its remove_count *)
+  let rc_base : (int, int) Hashtbl.t = Hashtbl.create 16 in
+  let is_rc (e : event) = (try let tg = Hashtbl.find site_targets (e.file, e.line) in String.length tg >= 12 && String.sub tg 0 12 = "remove_count" with Not_found -> false) in
+  let rc_note (e : event) =
+    if is_rc e then begin
+      Hashtbl.replace rc_addr (obj_region e.obj) e.obj;
+      Hashtbl.replace rc_real e.obj (if (e.kind = "cas" && e.ok) || e.kind = "store" then e.b else e.a)
+    end in
   let learn_blk t blk =
-    if not (Hashtbl.mem main_blk t) then begin Hashtbl.replace main_blk t blk; Hashtbl.replace thread_of_blk blk t end in
+    if not (Hashtbl.mem main_blk t) then begin
+      Hashtbl.replace main_blk t blk; Hashtbl.replace thread_of_blk blk t;
+      Hashtbl.replace rc_base t (try Hashtbl.find rc_real (Hashtbl.find rc_addr blk) with Not_found -> 0)
+    end in
   let dl_opt d = if d < 0 then None else Some (z_of_int d) in
   let mem_list r l = Stdlib.List.exists (fun x -> int_of_nat x = r) l in
   (* object of a trace event as the model names it *)
@@ -188,6 +202,8 @@ let () =
     let o = obj_id e in
     let chk_site s = if int_of_z s <> key then fail (Printf.sprintf "model is at site %d, implementation at %d" (int_of_z s) key) in
     let chk_obj mo = if int_of_z mo <> o then fail (Printf.sprintf "object differs: model %d, implementation %d (%s)" (int_of_z mo) o e.obj) in
+    let off = if is_rc e then (try Hashtbl.find rc_base (Hashtbl.find thread_of_blk (obj_region e.obj)) with Not_found -> 0) else 0 in
+    let int_of_z z = int_of_z z + off in
     (match e.kind, thr t CNormal with
      | "load", EvLoad (s, mo, v) ->
        chk_site s; chk_obj mo;
@@ -234,7 +250,8 @@ let () =
             | Some (fn, _) when e.file = "note.c" && fn = "note_notify_child" && e.kind = "store" && e.b = 1 -> env Notify "Notify"
             | None when e.file = "cv.c" -> fail "trace site not in Gen/Sites"
             | _ ->
-              if region = "mu0" && ((e.kind = "cas" && e.ok) || e.kind = "store") then mu_write e else incr skipped)
+              if region = "mu0" && ((e.kind = "cas" && e.ok) || e.kind = "store") then mu_write e else incr skipped);
+           rc_note e
        end else if String.length line > 2 && line.[0] = 'N' then begin
          last_ev := line;
          match String.split_on_char ' ' line with
